@@ -471,19 +471,24 @@ def step (resume : Bool) (w : World) (s : Source) (t : Tgt) (c : Cache) (d : CDa
 def AgreeBelow (w : World) (a b : Id) (x : Int) : Prop :=
   ∀ n, 0 ≤ n → n < x → w.hist a n = w.hist b n
 
+/-- the cache holds nothing under the current id yet: it is labelled otherwise, or
+    it is empty (e.g. `syncMeta` cleared and relabelled it and then failed) -/
+def NotYetCurrent (s : Source) (c : Cache) : Prop :=
+  c.runId ≠ s.id1 ∨ (c.rdb = none ∧ c.aof = none)
+
 /-- the stored position tells the truth: if it could lead to a continuation (its
     id is one the source serves, its offset is not negative) then the target
     really holds some history up to exactly that offset, and that history agrees
     below it with the current one — or the position is still labelled with the
     previous id, agrees with *that* history, and the cache is not yet labelled
-    with the current id (the source will check the offset against its switch
-    offset when asked for it). -/
+    with the current id, or empty (the source will check the offset against its
+    switch offset when asked for it). -/
 def Truthful (w : World) (s : Source) (t : Tgt) (c : Cache) : Prop :=
   (t.stored.runId = s.id1 ∨ t.stored.runId = s.id2) → 0 ≤ t.stored.offset →
     ∃ tid, t.truth = .at tid t.stored.offset ∧
       (AgreeBelow w tid s.id1 t.stored.offset ∨
         (t.stored.runId = s.id2 ∧ t.stored.runId ≠ s.id1 ∧
-          AgreeBelow w tid s.id2 t.stored.offset ∧ c.runId ≠ s.id1))
+          AgreeBelow w tid s.id2 t.stored.offset ∧ NotYetCurrent s c))
 
 /-! ## 8. Sequences of connections -/
 
@@ -503,6 +508,9 @@ structure Sys where
     * `cache`   the cache being lost, trimmed, collected or replaced by another
                 instance's (any well-formed consistent cache not newly labelled
                 with the current id);
+                in particular `syncMeta` failing after `DelRunId`/`SetRunId` (cache
+                empty, already labelled with the current id) and before the
+                output was told anything;
     * `forget`  the stored position being lost or replaced by one that cannot be
                 continued (foreign id or negative offset): a restart in in-memory
                 mode (`("",0)`), a deleted checkpoint, `ResetStartPoint`.
@@ -520,7 +528,7 @@ inductive Reach (w : World) : Sys → Prop
       s'.id1 ≠ σ.t.stored.runId → s'.id1 ≠ σ.c.runId →
       (s'.id2 = σ.t.stored.runId → σ.t.stored.runId = σ.s.id1) → Reach w ⟨s', σ.t, σ.c, σ.d⟩
   | cache (σ : Sys) (c' : Cache) (d' : CData) : Reach w σ → CacheWF c' → CacheOK w c' d' →
-      (c'.runId = σ.c.runId ∨ c'.runId ≠ σ.s.id1) → Reach w ⟨σ.s, σ.t, c', d'⟩
+      (c'.runId = σ.c.runId ∨ NotYetCurrent σ.s c') → Reach w ⟨σ.s, σ.t, c', d'⟩
   | forget (σ : Sys) (sp' : SP) : Reach w σ →
       ((sp'.runId ≠ σ.s.id1 ∧ sp'.runId ≠ σ.s.id2) ∨ sp'.offset < 0) →
       Reach w ⟨σ.s, ⟨sp', σ.t.truth⟩, σ.c, σ.d⟩
